@@ -113,6 +113,13 @@ def run_case(case):
                 res.labels.append("singular_jacobian_consistent")
                 res.inconclusive += 1
                 return res
+            if getattr(b, "param_max", [0.0])[0] > 10.0:
+                # a conditioner fed with tail inputs (|x| up to 3 tail bounds) produced unnormalised parameters beyond +-10 (e.g.
+                # derivative parameters ~ -38: sigmoid underflows below the rounding of the other polynomial coefficients);
+                # outside the parameter domain these checks decide (DESIGN 2) - direct-parameter leaves cover +-8
+                res.labels.append("extreme_conditioner_params")
+                res.inconclusive += 1
+                return res
             res.fail("nonfinite", case["spec"]["t"], "non-finite forward result: ld=%s" % ld.tolist())
             res.nontrivial = True
             return res
